@@ -2944,6 +2944,71 @@ fn two_edge_raa_battery(_a: &mut Vec<i128>) -> String {
 	}
 }
 
+/// channel_ready_twice_probe: node 0 funds two channels (to nodes 1 and 2) with ONE batch transaction; only node 1 has
+/// answered funding_created, so node 0's channel to it waits for the rest of the batch. Node 1 sees the transaction
+/// confirmed and sends channel_ready; node 0 processes it. Then a second channel_ready for the same channel naming a
+/// DIFFERENT next commitment point is delivered. Output: `1` iff node 0 refuses it (an error for the peer / the channel is
+/// closed), `0` if it is accepted silently - which would replace the point the first revoke_and_ack is checked against.
+fn channel_ready_twice_probe(_a: &mut Vec<i128>) -> String {
+	use lightning::ln::msgs::{ChannelMessageHandler, MessageSendEvent};
+	let chanmon_cfgs = create_chanmon_cfgs(3);
+	let node_cfgs = create_node_cfgs(3, &chanmon_cfgs);
+	let node_chanmgrs = create_node_chanmgrs(3, &node_cfgs, &[None, None, None]);
+	let nodes = create_network(3, &node_cfgs, &node_chanmgrs);
+	let node_a_id = nodes[0].node.get_our_node_id();
+	let node_b_id = nodes[1].node.get_our_node_id();
+	let (tx, funding_created_msgs) =
+		create_batch_channel_funding(&nodes[0], &[(&nodes[1], 100_000, 0, 42, None), (&nodes[2], 200_000, 0, 43, None)]);
+	nodes[1].node.handle_funding_created(node_a_id, &funding_created_msgs[0]);
+	check_added_monitors(&nodes[1], 1);
+	let _ = nodes[1].node.get_and_clear_pending_events();
+	let funding_signed_msg = lightning::get_event_msg!(nodes[1], MessageSendEvent::SendFundingSigned, node_a_id);
+	nodes[0].node.handle_funding_signed(node_b_id, &funding_signed_msg);
+	check_added_monitors(&nodes[0], 1);
+	let _ = nodes[0].node.get_and_clear_pending_events();
+	// node 1 sees the batch transaction confirmed
+	mine_transaction(&nodes[1], &tx);
+	connect_blocks(&nodes[1], CHAN_CONFIRM_DEPTH - 1);
+	let ready = nodes[1]
+		.node
+		.get_and_clear_pending_msg_events()
+		.into_iter()
+		.find_map(|e| match e {
+			MessageSendEvent::SendChannelReady { msg, .. } => Some(msg),
+			_ => None,
+		})
+		.expect("channel_ready from node 1");
+	nodes[0].node.handle_channel_ready(node_b_id, &ready);
+	let first = nodes[0].node.get_and_clear_pending_msg_events();
+	let refused_first = first.iter().any(|e| matches!(e, MessageSendEvent::HandleError { .. }));
+	let mut forged = ready.clone();
+	forged.next_per_commitment_point = nodes[2].node.get_our_node_id();
+	nodes[0].node.handle_channel_ready(node_b_id, &forged);
+	let second = nodes[0].node.get_and_clear_pending_msg_events();
+	let refused = second.iter().any(|e| matches!(e, MessageSendEvent::HandleError { .. }));
+	for n in 0..3 {
+		let _ = nodes[n].node.get_and_clear_pending_events();
+		let _ = nodes[n].node.get_and_clear_pending_msg_events();
+		nodes[n].chain_monitor.added_monitors.lock().unwrap().clear();
+		nodes[n].tx_broadcaster.txn_broadcasted.lock().unwrap().clear();
+	}
+	core::mem::forget(nodes);
+	format!("{} {}", refused as u8, refused_first as u8)
+}
+
+/// channel_ready_battery: channel_ready_twice_probe must report `1 0` (the genuine one accepted, the forged one refused).
+fn channel_ready_battery(_a: &mut Vec<i128>) -> String {
+	match catch_unwind(AssertUnwindSafe(|| channel_ready_twice_probe(&mut vec![]))) {
+		Ok(v) if v == "1 0" => "0 1".to_string(),
+		other => {
+			if std::env::var("ORACLE_DEBUG").is_ok() {
+				eprintln!("channel_ready_battery: {:?} (wanted 1 0)", other.ok());
+			}
+			"1 1".to_string()
+		},
+	}
+}
+
 fn main() {
 	if std::env::var("ORACLE_DEBUG").is_err() { std::panic::set_hook(Box::new(|_| {})); }
 	let stdin = std::io::stdin();
@@ -2959,6 +3024,8 @@ fn main() {
 		let mut args: Vec<i128> = it.map(|x| x.parse::<i128>().expect("bad int")).collect();
 		let r = catch_unwind(AssertUnwindSafe(|| match name.as_str() {
 			"forward_probe" => forward_probe(&mut args),
+			"channel_ready_twice_probe" => channel_ready_twice_probe(&mut args),
+			"channel_ready_battery" => channel_ready_battery(&mut args),
 			"two_edge_raa_probe" => two_edge_raa_probe(&mut args),
 			"two_edge_raa_battery" => two_edge_raa_battery(&mut args),
 			"dup_hash_onchain_probe" => dup_hash_onchain_probe(&mut args),
